@@ -7,9 +7,58 @@ from .facts import AnalysisIncomplete
 from .tables import SERDE_LAYOUTS
 
 
+CONST_STRS = {}      # named string constants of the crate (filled by set_consts)
+
+
+def set_consts(facts):
+    CONST_STRS.clear()
+    for c in facts.raw.get('consts', []):
+        v = c.get('val') or {}
+        if v.get('c') == 'str':
+            CONST_STRS[c['def']] = v['v']
+
+
+def const_str(a):
+    if a.get('o') != 'const':
+        return None
+    if 'val' in a and a['val'].get('c') == 'str':
+        return a['val']['v']
+    if 'ref' in a:
+        return CONST_STRS.get(a['ref'])
+    return None
+
+
+def str_locals(body):
+    """locals that hold a constant string (assigned once from a literal / named constant, possibly re-borrowed)"""
+    m = {}
+    assigned = {}
+    for bb in body['blocks']:
+        for st in bb['stmts']:
+            if st['s'] == 'assign' and not st['p']['p']:
+                assigned[st['p']['l']] = assigned.get(st['p']['l'], 0) + 1
+    for _ in range(3):
+        for bb in body['blocks']:
+            for st in bb['stmts']:
+                if st['s'] != 'assign' or st['p']['p'] or assigned.get(st['p']['l']) != 1:
+                    continue
+                rv = st['rv']
+                v = None
+                if rv['r'] == 'use':
+                    a = rv['a']
+                    v = const_str(a)
+                    if v is None and a['o'] in ('copy', 'move') and not a['p']['p']:
+                        v = m.get(a['p']['l'])
+                elif rv['r'] == 'ref' and all(e['k'] == 'deref' for e in rv['p']['p']):
+                    v = m.get(rv['p']['l'])
+                if v is not None:
+                    m[st['p']['l']] = v
+    return m
+
+
 def callees(body):
     """resolved callees of a body: list of (key, def, local, const str args)"""
     out = []
+    sl = str_locals(body)
     for bb in body['blocks']:
         t = bb['term']
         if t['t'] != 'call':
@@ -17,8 +66,11 @@ def callees(body):
         c = t['callee']
         strs = []
         for a in t['args']:
-            if a['o'] == 'const' and 'val' in a and a['val'].get('c') == 'str':
-                strs.append(a['val']['v'])
+            v = const_str(a)
+            if v is None and a['o'] in ('copy', 'move') and not a['p']['p']:
+                v = sl.get(a['p']['l'])
+            if v is not None:
+                strs.append(v)
         out.append({'key': c.get('key'), 'def': c.get('def'), 'decl': c.get('decl'), 'local': c.get('local', False),
                     'forward': c.get('forward'), 'strs': strs, 'sp': t['sp']})
     return out
@@ -42,6 +94,7 @@ CLOCK_READERS = {
 
 def clock_readers(rep, facts):
     """who-may-call: the functions that read the clock are exactly the documented ones"""
+    set_consts(facts)
     readers = {}
     for k, b in facts.bodies.items():
         for c in callees(b):
@@ -71,6 +124,7 @@ def clock_readers(rep, facts):
 # ----------------------------------------------------------------------------------------------------------------
 def serde_layouts(rep, facts):
     """the picture literal of each static formatter equals the layout in the statement; one closure per static"""
+    set_consts(facts)
     found = {}
     for sd, s in facts.statics.items():
         name = sd.split('::')[-1]
@@ -91,16 +145,11 @@ def serde_layouts(rep, facts):
                     if rv['r'] == 'use' and rv['a']['o'] == 'const' and 'val' in rv['a'] and rv['a']['val'].get('c') == 'closure':
                         closures.append(rv['a']['val']['key'])
         lits = []
-        unwraps = 0
         for ck in set(closures):
             cb = facts.bodies.get(ck)
             if cb is None:
                 continue
-            for c in callees(cb):
-                if (c['def'] or '').startswith('format::Formatter::try_new'):
-                    lits.extend(c['strs'])
-                if (c['decl'] or '').endswith('::unwrap'):
-                    unwraps += 1
+            lits.extend(picture_literals(facts, cb, 0))
         found[name] = lits
         rep.ob(f"E2|serde-layout|{name}", lits == [SERDE_LAYOUTS[name]], f"static {sd} is built from picture(s) {lits}, the statement requires {SERDE_LAYOUTS[name]!r}", rule='E2-layout-literal')
     need = ['DATE_FORMATTER', 'TIME_FORMATTER', 'TIMESTAMP_FORMATTER', 'INTERVAL_YM_FORMATTER', 'INTERVAL_DT_FORMATTER']
@@ -111,6 +160,35 @@ def serde_layouts(rep, facts):
             raise AnalysisIncomplete(f"anchor missing: static {n}")
     rep.sample({'rule': 'serde layout literals', 'found': found})
     return found
+
+
+def forwards_to_try_new(facts, body, depth):
+    """the body hands a non-constant value (its parameter) to Formatter::try_new, directly or through local wrappers"""
+    for c in callees(body):
+        if (c['def'] or '').startswith('format::Formatter::try_new') and not c['strs']:
+            return True
+        if c['local'] and depth < 3 and not c['strs']:
+            b2 = facts.bodies.get(c['key'])
+            if b2 is not None and b2 is not body and forwards_to_try_new(facts, b2, depth + 1):
+                return True
+    return False
+
+
+def picture_literals(facts, body, depth):
+    """string literals (or named string constants) that reach Formatter::try_new from this body"""
+    out = []
+    for c in callees(body):
+        if (c['def'] or '').startswith('format::Formatter::try_new'):
+            out.extend(c['strs'])
+        elif c['local'] and c['strs'] and depth < 3:
+            b2 = facts.bodies.get(c['key'])
+            if b2 is not None and forwards_to_try_new(facts, b2, depth + 1):
+                out.extend(c['strs'])
+        elif c['local'] and not c['strs'] and depth < 3 and '{closure' not in (c['key'] or ''):
+            b2 = facts.bodies.get(c['key'])
+            if b2 is not None and b2 is not body:
+                out.extend(picture_literals(facts, b2, depth + 1))
+    return out
 
 
 STATIC_OF_TYPE = {
@@ -167,6 +245,7 @@ INTERNAL_TWIN = {'round_week': 'date::Date::round_week_internal', 'round_month_s
 
 def delegation(rep, facts):
     """Timestamp units delegate to the Date method of the same trait item, OracleDate to the Timestamp one"""
+    set_consts(facts)
     n = 0
     for k, b in facts.bodies.items():
         ti = trait_item(b['def'])
